@@ -450,4 +450,18 @@ example : Inv (exact id) (Cubic.new 0 1400) := new_inv _ rounding_id 0 1400 (by 
 example : (run (exact id) (Cubic.new 0 1400) [.setRwnd 100000, .ack 5 1400 50]).window (exact id) = 4200 := by
   decide +kernel
 
+/-! ### Known finding D15: with binary64 rounding the slow-start clause is FALSE (by one byte)
+
+Negation witness, evaluated by the kernel with the executable round-to-nearest-even `rnd53`: MSS 1432, peer
+window 1 MiB; an ACK of 1 byte leaves `window()` at 2864, the next ACK of 1432 bytes takes it to 4297:
+growth 1433 > 1432. The same four operations are replayed on the implementation on every run
+(`corpus/cubic/known_d15_slow_start_rounding.ops`). -/
+
+def d15Before : Cubic := run fenv53 (Cubic.new 0 1432) [.setRwnd 1048576, .ack 0 1 50000000]
+
+theorem d15_slow_start_exceeds_by_one_byte :
+    d15Before.window fenv53 = 2864 ∧ XR.lt d15Before.cwnd d15Before.ssthresh = true ∧
+    (d15Before.onAck fenv53 0 1432 50000000).window fenv53 = 2864 + 1432 + 1 := by
+  decide +kernel
+
 end UtpVerif.Props.C15
